@@ -116,20 +116,34 @@ def replay(ctx, binary, behs, label, mode="replay"):
 def crash_probe(ctx, binary, cases):
     """A transaction on which the transcribed recursive save meets an object that is already being
     saved is executed in a process of its own: realm.go as pinned recurses until the Go stack is
-    exhausted (fatal error: stack overflow - not a recoverable panic)."""
-    for case in cases[:2]:
+    exhausted (fatal error: stack overflow - not a recoverable panic, the process dies)."""
+    for case in cases[:3]:
         beh = case["steps"][:case["failed_at"]]
+        d = ctx.scratch_dir("crash")
+        inp = os.path.join(d, "behaviours.ndjson")
+        with open(inp, "w") as f:
+            f.write(json.dumps(beh, separators=(",", ":")) + "\n")
+        dump_dir = ctx.scratch_dir("dump")
+        env = dict(os.environ)
+        env.update({"VERIF_SEED": str(ctx.seed), "VERIF_TIER": ctx.tier, "TMPDIR": ctx.scratch})
         try:
-            replay(ctx, binary, [beh], "crash-probe", mode="crash")
-            ctx.add("crash_probes_survived", 1)
-        except vlib.Inconclusive as e:
-            if e.kind == "DRIVER-DIED" and "stack overflow" in e.msg and "saveUnsavedObjectRecursively" in e.msg:
+            p = subprocess.run([binary, "-mode", "crash", "-in", inp, "-out", dump_dir], capture_output=True, text=True, timeout=900, env=env)
+        except subprocess.TimeoutExpired:
+            raise vlib.Inconclusive("TIMEOUT", "crash probe")
+        if p.returncode != 0:
+            if "fatal error: stack overflow" in p.stderr and "saveUnsavedObjectRecursively" in p.stderr:
                 ctx.violation("C06:finalize:stack-overflow-saving-unsaved-cycle",
-                              "FinalizeRealmTransaction never returns: saveUnsavedObjectRecursively recurses between a new object and a dirty object that refer to each other until the Go stack is exhausted (fatal error: stack overflow, the process dies during DeliverTx)",
+                              "FinalizeRealmTransaction never returns: saveUnsavedObjectRecursively recurses between a new object and a dirty object that refer to each other until the Go stack is exhausted (fatal error: stack overflow - the process dies inside DeliverTx)",
                               {"steps": beh, "failed_at": len(beh)})
                 ctx.add("crash_probes_died", 1)
-            else:
-                raise
+                continue
+            raise vlib.Inconclusive("DRIVER-DIED", "crash probe exit %d: %s" % (p.returncode, p.stderr[:2000]))
+        res = [json.loads(l) for l in p.stdout.splitlines() if l.startswith("{")]
+        s = vlib.handle_driver_results(ctx, res)
+        ctx.add("traces_validated_against_impl", int(s.get("replays", 0)))
+        ctx.add("impl_transactions", int(s.get("steps", 0)))
+        eval_dumps(ctx, dump_dir, int(s.get("dump_lines", 0)), [beh], "crash-probe")
+        ctx.add("crash_probes_survived", 1)
 
 
 def model(ctx, cfg, label, timeout=3000, workers=None):
@@ -162,8 +176,24 @@ def simulate(ctx, n, depth=60):
     return r
 
 
+def _one_violation_per_key(ctx):
+    if getattr(ctx, "_c06_dedup", False):
+        return
+    orig = ctx.violation
+    seen = ctx.cov.setdefault("violations_by_key", {})
+
+    def v(key, what, replay_obj=None):
+        seen[key] = seen.get(key, 0) + 1
+        if seen[key] > 1:
+            return False
+        return orig(key, what, replay_obj)
+    ctx.violation = v
+    ctx._c06_dedup = True
+
+
 def run(ctx):
     _locked_scratch(ctx)
+    _one_violation_per_key(ctx)
     binary = vlib.go_build("realm", ctx)
     case = ctx.replay_case()
     if case:
@@ -196,23 +226,33 @@ def run(ctx):
         start("model", lambda: model(ctx, "Realm_t.cfg", "exhaustive 1 realm, 3 nodes, 3 txs of <= 3 ops", workers=6))
         start("modelx", lambda: model(ctx, "Realm_x.cfg", "exhaustive 2 realms, 3 nodes, 2 txs of <= 4 ops", workers=6))
     start("witness", lambda: witness(ctx))
-    re_, rs = par([lambda: edges(ctx, "Realm_qe.cfg"), lambda: simulate(ctx, 80 if quick else 1500)])
-    eb = vlib.dedup_prefix(re_.traces)
-    ctx.cov["edges_emitted"] = len(re_.traces)
-    if quick:
+    # directed: the commit edges on which the recursive save meets an object already being saved
+    start("loop", lambda: edges(ctx, "Realm_loop.cfg"))
+    re_, rx, rs = par([lambda: edges(ctx, "Realm_qe.cfg"), lambda: edges(ctx, "Realm_xq.cfg"),
+                       lambda: simulate(ctx, 50 if quick else 1000)])
+    ctx.cov["edges_emitted"] = len(re_.traces) + len(rx.traces)
+    behs = []
+    for r, nq, nt in ((re_, 90, 5000), (rx, 50, 1500)):
+        eb = vlib.dedup_prefix(r.traces)
         eb.sort(key=lambda b: json.dumps(b, sort_keys=True))
-        eb = rng.sample(eb, min(150, len(eb)))
-    behs = eb + rs.traces
+        n = nq if quick else nt
+        behs += rng.sample(eb, min(n, len(eb)))
+    behs += rs.traces
+    ctx.log("emission done: %d behaviours selected" % len(behs))
     out = replay(ctx, binary, behs, "edges+simulation")
     s = out.get("summary", {})
     if not s.get("seen_escaped") or not s.get("seen_shared") or not s.get("nodes_compared") or not s.get("cross_realm_txs"):
         raise vlib.Inconclusive("VACUOUS", "replayed behaviours never produced a shared / escaped node or a cross-realm transaction: %s" % s)
-    crash_probe(ctx, binary, out.get("crash", []))
     for t in bg:
         t.join()
     for name, r in bgres.items():
         if isinstance(r, BaseException):
             raise r
+    loops = sorted(bgres["loop"].traces, key=lambda b: (len(json.dumps(b)), json.dumps(b, sort_keys=True)))
+    ctx.cov["loop_edges"] = len(loops)
+    if not loops:
+        raise vlib.Inconclusive("VACUOUS", "Realm_loop.cfg emitted no edge on which the save recursion meets an object being saved")
+    crash_probe(ctx, binary, [{"steps": b, "failed_at": len(b)} for b in loops[:2]] + out.get("crash", [])[:1])
     ctx.cov["crash_cases_seen"] = len(out.get("crash", []))
     ctx.cov["exhaustive"] = True
     ctx.assumptions += [
